@@ -10,6 +10,7 @@ import (
 	"sort"
 	"strconv"
 	"sync"
+	"sync/atomic"
 )
 
 // Rec is one record.
@@ -62,11 +63,18 @@ func emit(r *Rec) {
 	f.Write(b)
 }
 
+var caseCounter int64
+
+// CaseCounter returns the number of Begin/End/Count calls so far (a progress
+// indicator for the deadlock watchdog).
+func CaseCounter() int64 { return atomic.LoadInt64(&caseCounter) }
+
 // Only reports whether the named case is selected (VERIF_CASE unset or equal).
 func Only(caseID string) bool { return only == "" || only == caseID }
 
 // Begin announces a case before it runs.
 func Begin(caseID string, seed uint64, params map[string]interface{}) {
+	atomic.AddInt64(&caseCounter, 1)
 	mu.Lock()
 	defer mu.Unlock()
 	curCase = caseID
@@ -121,6 +129,7 @@ func Sample(kind string, max int, v interface{}) {
 
 // Count adds to a named counter.
 func Count(name string, n int64) {
+	atomic.AddInt64(&caseCounter, 1)
 	mu.Lock()
 	stats[name] += n
 	mu.Unlock()
